@@ -118,6 +118,26 @@ def run(ctx):
         tail = rng.choice(['', '/.cache/x', '/.config/a b', '/task/77/comm', '/modules/6.1.0-1/kernel', '/a:1.55', '/a:1', '/x-0123456789abcdef0123456789abcdef', '/12345678',
                            '/3f2a1b4c-1111-2222-3333-444455556666', '/bin/bash', '/bin/dash', '/:not.active.yet', '/1000/bus'])
         extra.append(parts + tail)
+    extra += ['/srv/user/08/x', '/srv/v:1.01']         # witnesses of K_digitRunShape, replayed on every run
+    # names built from the rewrite list itself: for every pattern of the list, strings it matches, placed in a path
+    import rx as RX
+    nsampled = 0
+    for pat, _repl in T['Regex']['logs']['regResolveLogs']:
+        try:
+            ast = RX.parse(pat)[0]
+        except RX.Unsupported:
+            continue
+        for _ in range(4 if ctx.tier == 'quick' else 40):
+            w = RX.sample(ast, rng)
+            if not w or '@{' in w or '//' in w or any(ch in w for ch in '\\*?[]{}'):
+                continue        # the kernel logs normalised paths: no empty component
+            if w.startswith('/'):
+                cands = [w + 'x', w.rstrip('/') + '/sub/file']
+            else:
+                cands = ['/opt/app/' + w + '/lib.so', '/usr/lib/jvm/java-17-openjdk-' + w, '/srv/' + w]
+            extra.append(rng.choice(cands))
+            nsampled += 1
+    ctx.cov['search']['names_sampled_from_the_rewrite_patterns'] = nsampled
     rops = ['resolvelogs\t' + esc(x) for x in names + extra]
     go2, le2, bad2 = ctx.diff('rx', rops, label='regResolveLogs vs Rx engine on the regenerated list')
     for i in bad2[:3]:
@@ -133,6 +153,9 @@ def run(ctx):
             if x.startswith('/att/') and ctx.known_finding('K_attPrefix'):
                 continue
             if any(ch in x for ch in '\\*?[]{}') and ctx.known_finding('K_globMetaInName'):
+                continue
+            import re as _re
+            if _re.search(r'(?<![0-9])0[0-9]', x) and _re.search(r'@\{(uid|pid|tid|busname)\}', pat) and ctx.known_finding('K_digitRunShape'):
                 continue
             ng += 1
             if ng <= 3:
